@@ -209,6 +209,74 @@ static void cmd_opt(char** t, int n) {
     free(ds); free(ks); free(out); free(dict); c18_free_samples(&s);
 }
 
+/* ---------------------------------------------------------------- round 2: segment selection / buildDictionary */
+static void print_u32s(const unsigned* v, size_t n) {
+    size_t i; if (n == 0) { printf("-"); return; }
+    for (i = 0; i < n; i++) printf("%s%u", i ? "," : "", v[i]);
+}
+/* fbuild d f accel k cap <samples> -> FB <ERR | nbDmers fh tail dirty content=<hex>> bytes=<hex of the samples> */
+static void cmd_fbuild(char** t, int n) {
+    unsigned d = (unsigned)strtoul(t[1], 0, 10), f = (unsigned)strtoul(t[2], 0, 10), accel = (unsigned)strtoul(t[3], 0, 10);
+    unsigned k = (unsigned)strtoul(t[4], 0, 10); size_t cap = (size_t)strtoull(t[5], 0, 10);
+    c18_samples s; unsigned char* dict; zv_fres r;
+    if (c18_parse_samples(t + 6, n - 6, &s) < 0) { printf("BADCASE\n"); return; }
+    dict = (unsigned char*)malloc(cap ? cap : 1); memset(dict, 0xEE, cap);
+    r = zv_fast_build(s.buf, s.sizes, s.nb, d, f, accel, k, cap, dict);
+    if (r.err) printf("FB ERR");
+    else if (r.tail > cap) printf("FB OVERRUN");
+    else { printf("FB %llu %llu %zu %s content=", r.nbDmers, r.fh, r.tail, r.dirty ? "dirty" : "clean"); c18_print_hex(dict + r.tail, cap - r.tail); }
+    printf(" bytes="); c18_print_hex(s.buf, s.total); printf("\n");
+    free(dict); c18_free_samples(&s);
+}
+/* fsel d f accel k begin end <samples> -> FS <ERR | begin end score fh dirty> bytes=<hex> */
+static void cmd_fsel(char** t, int n) {
+    unsigned d = (unsigned)strtoul(t[1], 0, 10), f = (unsigned)strtoul(t[2], 0, 10), accel = (unsigned)strtoul(t[3], 0, 10);
+    unsigned k = (unsigned)strtoul(t[4], 0, 10), b = (unsigned)strtoul(t[5], 0, 10), e = (unsigned)strtoul(t[6], 0, 10);
+    c18_samples s; zv_fres r;
+    if (c18_parse_samples(t + 7, n - 7, &s) < 0) { printf("BADCASE\n"); return; }
+    r = zv_fast_select(s.buf, s.sizes, s.nb, d, f, accel, k, b, e);
+    if (r.err) printf("FS ERR%d", r.err);
+    else printf("FS %u %u %u %llu %s", r.seg.begin, r.seg.end, r.seg.score, r.fh, r.dirty ? "dirty" : "clean");
+    printf(" bytes="); c18_print_hex(s.buf, s.total); printf("\n");
+    c18_free_samples(&s);
+}
+/* cbuild d k cap <samples> -> CB <ERR | n keys=.. fv=.. tail content=<hex>> bytes=<hex>
+ * csel d k begin end <samples> -> CS <ERR | n keys=.. fv=.. begin end score after=..> */
+static void cmd_cover(char** t, int n, int doBuild) {
+    unsigned d = (unsigned)strtoul(t[1], 0, 10), k = (unsigned)strtoul(t[2], 0, 10);
+    size_t cap = doBuild ? (size_t)strtoull(t[3], 0, 10) : 0;
+    unsigned b = doBuild ? 0 : (unsigned)strtoul(t[3], 0, 10), e = doBuild ? 0 : (unsigned)strtoul(t[4], 0, 10);
+    int const first = doBuild ? 4 : 5;
+    c18_samples s; unsigned char* dict; zv_cres r;
+    if (c18_parse_samples(t + first, n - first, &s) < 0) { printf("BADCASE\n"); return; }
+    dict = (unsigned char*)malloc(cap ? cap : 1); memset(dict, 0xEE, cap);
+    r = zv_cover_run(s.buf, s.sizes, s.nb, d, k, cap, dict, doBuild, b, e);
+    printf(doBuild ? "CB " : "CS ");
+    if (r.err) printf("ERR%d", r.err);
+    else if (doBuild && r.tail > cap) printf("OVERRUN");
+    else {
+        printf("%llu keys=", r.nbDmers); print_u32s(r.keys, (size_t)r.nbDmers);
+        printf(" fv="); print_u32s(r.fvals, (size_t)r.nbDmers);
+        if (doBuild) { printf(" %zu content=", r.tail); c18_print_hex(dict + r.tail, cap - r.tail); }
+        else { printf(" %u %u %u after=", r.seg.begin, r.seg.end, r.seg.score); print_u32s(r.fafter, (size_t)r.nbDmers); }
+    }
+    if (doBuild) { printf(" bytes="); c18_print_hex(s.buf, s.total); }
+    printf("\n");
+    free(r.keys); free(r.fvals); free(r.fafter); free(dict); c18_free_samples(&s);
+}
+/* lb first count value o0,o1,... -> index returned by COVER_lower_bound(offs+first, offs+first+count, value) */
+static void cmd_lb(char** t, int n) {
+    size_t first = (size_t)strtoull(t[1], 0, 10), count = (size_t)strtoull(t[2], 0, 10), value = (size_t)strtoull(t[3], 0, 10);
+    size_t* offs; size_t m = 1, i = 0; char* p; (void)n;
+    for (p = t[4]; *p; p++) if (*p == ',') m++;
+    offs = (size_t*)malloc(m * sizeof(size_t));           /* exact size: ASan sees a read past the array */
+    for (p = t[4]; i < m; i++) { offs[i] = (size_t)strtoull(p, &p, 10); if (*p == ',') p++; }
+    printf("%zu\n", zv_lower_bound(offs, first, count, value));
+    free(offs);
+}
+static void cmd_mapinit(char** t, int n) { (void)n; { int lg = zv_map_init_log((unsigned)strtoul(t[1], 0, 10)); if (lg < 0) printf("ERR\n"); else printf("%d\n", lg); } }
+static void cmd_maphash(char** t, int n) { (void)n; printf("%u\n", zv_map_hash((unsigned)strtoul(t[1], 0, 10), (unsigned)strtoul(t[2], 0, 10))); }
+
 static void dispatch(char** t, int n) {
     if (!strcmp(t[0], "chk") && n == 6) cmd_chk(t, n);
     else if (!strcmp(t[0], "fchk") && n == 8) cmd_fchk(t, n);
@@ -218,6 +286,13 @@ static void dispatch(char** t, int n) {
     else if (!strcmp(t[0], "adde") && n >= 11) cmd_adde(t, n);
     else if (!strcmp(t[0], "best")) cmd_best(t, n);
     else if (!strcmp(t[0], "opt") && n >= 20) cmd_opt(t, n);
+    else if (!strcmp(t[0], "fbuild") && n >= 9) cmd_fbuild(t, n);
+    else if (!strcmp(t[0], "fsel") && n >= 10) cmd_fsel(t, n);
+    else if (!strcmp(t[0], "cbuild") && n >= 7) cmd_cover(t, n, 1);
+    else if (!strcmp(t[0], "csel") && n >= 8) cmd_cover(t, n, 0);
+    else if (!strcmp(t[0], "lb") && n == 5) cmd_lb(t, n);
+    else if (!strcmp(t[0], "mapinit") && n == 2) cmd_mapinit(t, n);
+    else if (!strcmp(t[0], "maphash") && n == 3) cmd_maphash(t, n);
     else printf("BADCASE\n");
 }
 
